@@ -108,7 +108,7 @@ namespace c15
         unsigned cursor() override { return rl.line.cursor; }
         std::string text() override { return std::string(rl.line.buf, rl.line.len); }
         int linecpy(char *dst, size_t maxlen) override { return readline_linecpy(&rl, dst, maxlen); }
-        int state() override { return rl.state; }
+        int state() override { return C15_CANON_RSTATE(rl.state); }
         std::string tail() override
         {
             // the ring as the C strings its slots hold (round 3: the bytes behind a slot's terminator are not
@@ -120,7 +120,7 @@ namespace c15
                 size_t n = strnlen((const char *)h.p + (size_t)i * cap, cap);
                 slots += (i ? "." : "") + hex(h.p + (size_t)i * cap, n);
             }
-            return " H" + std::to_string(rl.headhist) + "," + std::to_string(rl.curhist) + "," + std::to_string(rl.state) +
+            return " H" + std::to_string(rl.headhist) + "," + std::to_string(rl.curhist) + "," + std::to_string(C15_CANON_RSTATE(rl.state)) +
                    "," + (depth && cap ? slots : std::string("-"));
         }
     };
@@ -150,11 +150,32 @@ namespace c15
         std::string pstore;
         void set_prompt(const std::string &p) override { pstore = p; v.prefix_string = pstore.c_str(); } // the C API has no setter
         void set_echo(bool e) override { v.echo = e ? 1 : 0; }
-        int state() override { return v.state; }
-        int rlstate() override { return v.rl.state; }
-        unsigned len() override { return v.rl.line.len; }
-        unsigned cursor() override { return v.rl.line.cursor; }
-        std::string text() override { return std::string(v.rl.line.buf, v.rl.line.len); }
+        // internals of struct vterm_automate (round 3b: optional, see iface.h).  `rl.line` with buf / len / cursor
+        // and `rl.state` are the state the property's record names; `state` of the terminal itself is not.
+        template <class V> static constexpr bool vis = requires(V &x) { x.rl.line.len; x.rl.line.cursor; x.rl.line.buf; };
+        template <class V> static int st_of(V &x)
+        {
+            if constexpr (requires { (int)x.state; }) return (int)x.state;
+            else return NOT_VISIBLE;
+        }
+        template <class V> static int rst_of(V &x)
+        {
+            if constexpr (requires { (int)x.rl.state; }) return C15_CANON_RSTATE((int)x.rl.state);
+            else return NOT_VISIBLE;
+        }
+        template <class V> static unsigned len_of(V &x) { if constexpr (vis<V>) return x.rl.line.len; else return 0; }
+        template <class V> static unsigned cur_of(V &x) { if constexpr (vis<V>) return x.rl.line.cursor; else return 0; }
+        template <class V> static std::string text_of(V &x)
+        {
+            if constexpr (vis<V>) return std::string(x.rl.line.buf, x.rl.line.len);
+            else return std::string();
+        }
+        bool line_visible() override { return vis<struct vterm_automate>; }
+        int state() override { return st_of(v); }
+        int rlstate() override { return rst_of(v); }
+        unsigned len_() override { return len_of(v); }
+        unsigned cursor_() override { return cur_of(v); }
+        std::string text_() override { return text_of(v); }
     };
     ivterm *make_vterm_c(unsigned cap, unsigned depth, bool echo) { return new vterm_c(cap, depth, echo); }
 
@@ -175,8 +196,18 @@ namespace c15
 
 namespace c15
 {
-    // widths and constants the model embeds (Drv.lean consts2Line)
-    std::string consts2_c()
+    // Constants the model embeds (Drv.lean consts2Line).  Round 3b: the COMPARED result holds only what the public
+    // interface fixes - the width of the `int16_t` key parameter, of the `unsigned int` count parameter of
+    // sline_backspace / sline_delete and of the `int` length of sline_newdata (read from the function types),
+    // VTERM_INIT_STEP, the signedness of char, the bytes vt100_left needs for INT_MAX.  The widths of struct fields
+    // and the numbers behind READLINE_STATE_* are not fixed by the property (a widened counter or renumbered state
+    // is a harmless change): they are reported as TAGS (w-<field>=<bytes>, 0 = the field cannot be named).
+    template <class F> struct arg2;
+    template <class R, class A, class B> struct arg2<R (*)(A, B)> { typedef B type; };
+    template <class F> struct arg3;
+    template <class R, class A, class B, class C> struct arg3<R (*)(A, B, C)> { typedef C type; };
+#define C15_FIELD_SIZE(obj, f) ([](auto &o_) -> size_t { if constexpr (requires { sizeof(o_.f); }) return sizeof(o_.f); else return 0; }(obj))
+    std::string consts2_c(std::string &tags)
     {
         struct sline sl;
         struct readline rl;
@@ -184,12 +215,18 @@ namespace c15
         char b[16];
         int n = vt100_left(b, 2147483647);
         std::string s;
-        size_t v[] = {sizeof sl.cap, sizeof sl.len, sizeof sl.cursor, sizeof rl.state, sizeof rl.last, sizeof rl.lastsize,
-                      sizeof rl.history_size, sizeof rl.headhist, sizeof rl.curhist, sizeof vt.state, sizeof vt.echo, sizeof(int16_t)};
-        for (size_t x : v) s += std::to_string(x) + " ";
-        s += std::to_string(VTERM_INIT_STEP) + " " + std::to_string(READLINE_STATE_NORMAL) + " " + std::to_string(READLINE_STATE_ESCSEQ) + " " +
-             std::to_string(READLINE_STATE_ESCSEQ_MOVE) + " " + std::to_string(READLINE_STATE_ESCSEQ_MOVE_WAIT_7E) + " " +
-             std::to_string((char)-1 < 0 ? 1 : 0) + " " + consts2_x() + " " + std::to_string(n);
+        s += std::to_string(sizeof(arg2<decltype(&vterm_automate_newdata)>::type)) + " ";
+        s += std::to_string(sizeof(arg2<decltype(&sline_backspace)>::type)) + " " + std::to_string(sizeof(arg2<decltype(&sline_delete)>::type)) + " ";
+        s += std::to_string(sizeof(arg3<decltype(&sline_newdata)>::type)) + " ";
+        s += std::to_string(VTERM_INIT_STEP) + " " + std::to_string((char)-1 < 0 ? 1 : 0) + " " + std::to_string(n);
+        auto w = [&](const char *name, size_t x) { tags += std::string(tags.empty() ? "" : ",") + "w-" + name + "=" + std::to_string(x); };
+        w("cap", C15_FIELD_SIZE(sl, cap)); w("len", C15_FIELD_SIZE(sl, len)); w("cursor", C15_FIELD_SIZE(sl, cursor));
+        w("rl.state", C15_FIELD_SIZE(rl, state)); w("rl.last", C15_FIELD_SIZE(rl, last)); w("rl.lastsize", C15_FIELD_SIZE(rl, lastsize));
+        w("history_size", C15_FIELD_SIZE(rl, history_size)); w("headhist", C15_FIELD_SIZE(rl, headhist)); w("curhist", C15_FIELD_SIZE(rl, curhist));
+        w("vt.state", C15_FIELD_SIZE(vt, state)); w("vt.echo", C15_FIELD_SIZE(vt, echo));
+        tags += ",rstate-numbers=" + std::to_string(READLINE_STATE_NORMAL) + "/" + std::to_string(READLINE_STATE_ESCSEQ) + "/" +
+                std::to_string(READLINE_STATE_ESCSEQ_MOVE) + "/" + std::to_string(READLINE_STATE_ESCSEQ_MOVE_WAIT_7E);
+        tags += "," + consts2_x();
         (void)sl; (void)rl; (void)vt;
         return s;
     }
@@ -644,6 +681,7 @@ struct session
         bool midline = !ref.right.empty();
         bool full = ref.len() + 1 >= cap;
         int esc_before = ref.esc;
+        size_t cur_before = ref.left.size();
         if (mode == 0) v->key(c);
         else if (mode == 1)
         {
@@ -688,15 +726,22 @@ struct session
         // after accept / abort the terminal starts a fresh line
         if (r == 1)
             ref.fresh_line();
-        // ---- the automata stay in their enumerated states (the `default:` branches are dead)
+        // ---- the automata stay in their enumerated states (the `default:` branches are dead); judged when the
+        //      state fields can be named (the escape state by the READLINE_STATE_* names, not their numbers)
         {
             int st = v->state(), rs = v->rlstate();
-            if (!(st == 2 || (cxx && r == 1 && st == 1)))
+            if (st != NOT_VISIBLE && !(st == 2 || (cxx && r == 1 && st == 1)))
                 bad("terminal automaton state " + std::to_string(st) + " after a key", keys);
-            if (rs < 0 || rs > 3 || rs != ref.esc)
+            if (rs != NOT_VISIBLE && (rs < 0 || rs > 3 || rs != ref.esc))
                 bad("readline escape state " + std::to_string(rs) + " != reference decoder's " + std::to_string(ref.esc), keys);
         }
-        // ---- editor state
+        // ---- editor state (the line is not visible: the record carries the reference's values, the terminal is
+        //      judged by its callbacks and its output)
+        if (!v->line_visible())
+        {
+            if (cxx && r == 1) v->shadow((unsigned)acc.size(), (unsigned)cur_before, acc);
+            else v->shadow((unsigned)ref.len(), (unsigned)ref.left.size(), ref.line());
+        }
         unsigned len = v->len(), cur = v->cursor();
         if (!(cur <= len && len < cap))
             bad("bounds: cursor " + std::to_string(cur) + " len " + std::to_string(len) + " cap " + std::to_string(cap), keys);
@@ -1374,7 +1419,7 @@ static void run_tw(const std::vector<std::string> &w, out &o)
         if (evs(*a.v) != evs(*b.v)) fail = "callback events differ: vterm.c " + evs(*a.v) + " vtermxx " + evs(*b.v);
         else if (!owes && (a.v->text() != b.v->text() || a.v->cursor() != b.v->cursor())) fail = "line / cursor differ: vterm.c '" + hex(a.v->text()) + "' vtermxx '" + hex(b.v->text()) + "'";
         else if (wa != wb + (owes && echo ? b.prompt_now : std::string())) fail = "written bytes differ (beyond the prompt vtermxx owes)";
-        else if (a.v->rlstate() != b.v->rlstate() && !owes) fail = "escape states differ";
+        else if (a.v->rlstate() != NOT_VISIBLE && b.v->rlstate() != NOT_VISIBLE && a.v->rlstate() != b.v->rlstate() && !owes) fail = "escape states differ";
         if (!fail.empty()) fail += " after keys " + hex(sofar);
     }
     o.result = res;
@@ -1459,7 +1504,7 @@ static void run_op(const std::vector<std::string> &w, const std::string &, out &
     if (op == "lh" && w.size() == 6) return run_lh(w, o);
     if (op == "tw" && w.size() == 5) return run_tw(w, o);
     if (op == "ts" && w.size() >= 2) return run_ts(w, o);
-    if (op == "consts2") { o.result = consts2_c(); return; }
+    if (op == "consts2") { o.result = consts2_c(o.tags); return; }
     if (op == "premain" && w.size() == 2)
     {
         if (w[1] != hex(std::string(PREMAIN_KEYS))) { o.result = "bad-op"; return; }
